@@ -146,6 +146,7 @@ func (a *Operator) complete(assembleParser *parser.Parser) string {
 		logger.Trace().Msgf("After simplification assembly: %s\n", result)
 		result = a.useHexEscapes(result)
 		logger.Trace().Msgf("After replacing non-printable characters with hex escapes: %s\n", result)
+		verifhook.Emit("clean.in", "text", result)
 		result = a.escapeDoublequotes(result)
 		logger.Trace().Msgf("After escaping double quotes: %s\n", result)
 		result = a.useHexBackslashes(result)
@@ -156,6 +157,7 @@ func (a *Operator) complete(assembleParser *parser.Parser) string {
 		logger.Trace().Msgf("After removing meta character flags: %s\n", result)
 		result = a.removeOutermostNonCapturingGroup(result)
 		logger.Trace().Msgf("After removing outermost non-capturing group: %s\n", result)
+		verifhook.Emit("clean.out", "text", result)
 	}
 
 	if len(flagsPrefix) > 0 && len(result) > 0 {
